@@ -233,6 +233,9 @@ func guardParams(c *Ctx) {
 	c.S.Decide(panics, "C15", "GUARD-CALLBACK", fi.QName()+"/nil-callback-panics", c.P.Pos(fi.Decl.Pos()),
 		"a nil callback is replaced by one that panics (plain variants)", "a nil error callback is not turned into a panic: the plain variants would return silently")
 
+	// no lookup hands out a parameter list of the document itself: what is returned is built from the merge map
+	// (a list of the document still holds the $ref placeholders, and skips the callback)
+	c.noRawParamLists(fi)
 	// override order in every caller: path-item parameters merged before operation parameters, into the same map
 	callers := 0
 	for _, cf := range c.P.SortedFuncs() {
@@ -890,5 +893,63 @@ func guardDupSkip(c *Ctx) {
 	}
 	if n < 1 {
 		c.S.Note("GUARD-DUPSKIP: no duplicate-skipping collecting loop in the query methods (one on the pinned tree: SecurityDefinitionsFor); the rule is vacuous for other ways of writing the loop")
+	}
+}
+
+// noRawParamLists (C15, GUARD-PLACEHOLDER/returns): in every function (and function literal) that can reach the
+// parameter merge and returns []spec.Parameter, no return statement returns a list read from the document (a path
+// through spec-model fields rooted at a parameter, the receiver or a loop variable over the document).
+func (c *Ctx) noRawParamLists(merge *core.FuncInfo) {
+	n := 0
+	for _, fi := range c.P.SortedFuncs() {
+		if fi.Pkg.PkgPath != core.ModPath || !c.P.Reachable(fi)[merge] {
+			continue
+		}
+		info := c.info(fi)
+		ord := 0
+		var visit func(body *ast.BlockStmt, ft *ast.FuncType)
+		visit = func(body *ast.BlockStmt, ft *ast.FuncType) {
+			returnsList := false
+			if ft.Results != nil && len(ft.Results.List) >= 1 {
+				if t := info.TypeOf(ft.Results.List[0].Type); t != nil {
+					if sl, ok := t.Underlying().(*types.Slice); ok && core.IsSpecType(sl.Elem(), "Parameter") {
+						returnsList = true
+					}
+				}
+			}
+			ast.Inspect(body, func(nd ast.Node) bool {
+				switch x := nd.(type) {
+				case *ast.FuncLit:
+					visit(x.Body, x.Type)
+					return false
+				case *ast.ReturnStmt:
+					if !returnsList || len(x.Results) < 1 {
+						return true
+					}
+					n++
+					e := core.Unparen(x.Results[0])
+					raw := false
+					if p := c.P.PathOf(fi, e, true); p != nil && len(p.Steps) > 0 {
+						last := p.Steps[len(p.Steps)-1]
+						if last.Field != nil && isSpecField(last.Field) && core.IsSlice(last.Field.Type()) {
+							raw = true
+						}
+					}
+					ord++
+					k := fi.QName() + "/returns"
+					if ord > 1 {
+						k = fmt.Sprintf("%s#%d", k, ord)
+					}
+					c.S.Decide(!raw, "C15", "GUARD-PLACEHOLDER", k, c.P.Pos(x.Pos()),
+						"the list returned is built from the merged map",
+						"the lookup returns "+exprStr(e)+", a parameter list of the document itself: its $ref entries are still unresolved placeholders, dangling ones are neither reported to the callback nor turned into a panic")
+				}
+				return true
+			})
+		}
+		visit(fi.Decl.Body, fi.Decl.Type)
+	}
+	if n < 2 {
+		c.S.Note("GUARD-PLACEHOLDER/returns: fewer than two list-returning exits found above the parameter merge")
 	}
 }
